@@ -39,9 +39,11 @@ func (k Keeper) TallyPurchaseOrderDecisions(ctx sdk.Context) {
 			}
 		}
 
-		// first check if it's a stale PO
-		timeDiff := timeNow - po.RaiseTime
-		if timeDiff >= entParams.DecisionTimeLimit && numAccepts < int(entParams.MinAccepts) {
+		// first check if it's a stale PO. A block can be earlier than the raise time: the first block of a
+		// chain restarted from an export carries the genesis time of the document, which the export
+		// command copies from the old genesis file. No time has passed for the order then.
+		stale := timeNow >= po.RaiseTime && timeNow-po.RaiseTime >= entParams.DecisionTimeLimit
+		if stale && numAccepts < int(entParams.MinAccepts) {
 			po.Status = types.StatusRejected
 			po.CompletionTime = timeNow
 			err := k.SetPurchaseOrder(ctx, po)
